@@ -10,11 +10,11 @@ package main
 //      response must be the model's response for its own request.
 
 import (
-	"github.com/chihaya/chihaya/storage/memory"
-	"github.com/chihaya/chihaya/storage/redis"
 	"context"
 	"encoding/binary"
 	"fmt"
+	"github.com/chihaya/chihaya/storage/memory"
+	"github.com/chihaya/chihaya/storage/redis"
 	"net"
 	"runtime"
 	"sort"
@@ -616,11 +616,13 @@ func (echoLogic) HandleAnnounce(ctx context.Context, req *bittorrent.AnnounceReq
 	return ctx, &bittorrent.AnnounceResponse{Interval: time.Duration(req.Left%1000+1) * time.Second, Complete: uint32(req.Downloaded), Incomplete: uint32(req.Uploaded),
 		IPv4Peers: []bittorrent.Peer{p}, IPv6Peers: []bittorrent.Peer{p}}, nil
 }
-func (echoLogic) AfterAnnounce(context.Context, *bittorrent.AnnounceRequest, *bittorrent.AnnounceResponse) {}
+func (echoLogic) AfterAnnounce(context.Context, *bittorrent.AnnounceRequest, *bittorrent.AnnounceResponse) {
+}
 func (echoLogic) HandleScrape(ctx context.Context, req *bittorrent.ScrapeRequest) (context.Context, *bittorrent.ScrapeResponse, error) {
 	return ctx, &bittorrent.ScrapeResponse{}, nil
 }
-func (echoLogic) AfterScrape(context.Context, *bittorrent.ScrapeRequest, *bittorrent.ScrapeResponse) {}
+func (echoLogic) AfterScrape(context.Context, *bittorrent.ScrapeRequest, *bittorrent.ScrapeResponse) {
+}
 
 func emitEcho(c *Ctx, uc udpCase, obs string) {
 	tag := macTag(udpKey, append(append([]byte{}, uc.pkt[:4]...), uc.src...))
